@@ -430,3 +430,62 @@ Proof.
     let H := fresh "H" in assert (H : go_loop_b fl F' st = Some (LrEnd r)) by exact Hr1; rewrite H end.
   exact Hr2.
 Qed.
+
+(* WriteRune(r), r an int32: an ASCII rune goes through WriteByte, any other one is encoded behind room for UTFMax bytes *)
+Lemma append_in_fits : forall x y (e : bytes), (length e <= length y)%nat ->
+  sl_append_in (x, y) e = Some (x ++ e, skipn (length e) y).
+Proof.
+  intros x y e H. unfold sl_append_in. cbn [fst snd]. replace (length e <=? length y)%nat with true by (symmetry; apply Nat.leb_le; exact H).
+  reflexivity.
+Qed.
+
+Lemma gen_buf_write_rune : forall rup maxalloc nil (d sp : bytes) o l r,
+  (forall c, c <= rup c) -> st_wf nil ((d, sp), o, l) = true -> -2147483648 <= r < 2147483648 ->
+  wview (bview nil (fun v : Z * err => Res [fst v] [] (snd v))
+           (Buffers.buf_write_rune (d, sp) o l (fun _ => nil) (grow_slice_oracle rup maxalloc) r))
+  = wview (cstep rup maxalloc (abs_pc nil ((d, sp), o, l)) (OWriteRune r)).
+Proof.
+  intros rup maxalloc nil d sp o l r Hrup Hwf Hr.
+  unfold Buffers.buf_write_rune, buf_write_rune_ref. cbv zeta.
+  change buf_write_byte_ref with Buffers.buf_write_byte || idtac.
+  change (cstep rup maxalloc (abs_pc nil (d, sp, o, l)) (OWriteRune r)) with
+    (if (0 <=? r) && (r <? 128) then c_put rup maxalloc (abs_pc nil (d, sp, o, l)) 1 [zb r] (Res [1] [] ENil)
+     else c_put rup maxalloc (abs_pc nil (d, sp, o, l)) UTFMax (encode_rune r) (Res [zlen (encode_rune r)] [] ENil)).
+  assert (Hc : (r mod 4294967296 <? 128) = (0 <=? r) && (r <? 128)).
+  { destruct (0 <=? r) eqn:E0.
+    - rewrite Z.mod_small by lia. reflexivity.
+    - replace (r mod 4294967296) with (r + 4294967296); [lia|].
+      symmetry. rewrite <- (Z.mod_small (r + 4294967296) 4294967296) by lia.
+      rewrite <- Z.add_mod_idemp_r, Z.mod_same, Z.add_0_r by lia. reflexivity. }
+  rewrite Hc. destruct ((0 <=? r) && (r <? 128)) eqn:Ea.
+  - (* ASCII: WriteByte(byte(r)) *)
+    rewrite Z.mod_small by lia. rewrite <- (bz_zb r) at 1 by lia.
+    pose proof (gen_buf_write_byte rup maxalloc nil d sp o l (zb r) Hrup Hwf) as H.
+    unfold cstep, c_put in H. unfold c_put.
+    destruct (ensure rup maxalloc (set_last (abs_pc nil (d, sp, o, l)) opInvalid) 1) as [s2|q];
+    destruct (Buffers.buf_write_byte (d, sp) o l (fun _ => nil) (grow_slice_oracle rup maxalloc) (bz (zb r))) as [e [[b o'] l']|[[b o'] l']|p [[b o'] l']];
+    unfold wview, bview, res_err, halts in *; cbn [fst snd] in *; try discriminate;
+    inversion H; try reflexivity; congruence.
+  - (* encoded *)
+    pose proof (encode_len r) as He.
+    rewrite ?try_grow_spec, ?try_grow_ref_spec by lia.
+    unfold c_put, ensure, set_last, blen, zlen, abs_pc, sl_cap, opInvalid, UTFMax; cbn [fst snd data off cap isnil last_read].
+    replace (Z.of_nat (length d + length sp) - Z.of_nat (length d)) with (Z.of_nat (length sp)) by lia.
+    destruct (4 <=? Z.of_nat (length sp)) eqn:Efit; cbv beta iota zeta; cbn [negb].
+    + rewrite sl_to_cut by (rewrite app_length; lia).
+      rewrite Nat2Z.id, firstn_len_app, skipn_len_app, firstn_skipn.
+      rewrite append_in_fits by lia.
+      wv_unfold; rewrite ?app_length, ?skipn_length, ?app_length; st_eq.
+    + pose proof (grow_int_cases rup maxalloc nil d sp o 0 4 Hrup Hwf ltac:(lia)) as H.
+      change buf_grow_int_ref with Buffers.buf_grow_int || idtac.
+      unfold abs_pc, sl_cap in H; cbn [fst snd] in H.
+      destruct (Buffers.buf_grow_int (d, sp) o 0 (fun _ => nil) (grow_slice_oracle rup maxalloc) 4)
+        as [m [[[bd bs] o'] l']|[[b o'] l']|q [[b o'] l']].
+      * destruct H as (s' & -> & Hd & Ho & Hc' & Hl & Hm & Hlen); cbn [fst snd] in *.
+        rewrite sl_to_cut by lia.
+        rewrite append_in_fits by (rewrite app_length, skipn_length; lia).
+        destruct s' as [sd so sc sn sl]; cbn [data off cap isnil last_read] in *; subst.
+        wv_unfold; rewrite ?app_length, ?firstn_length, ?skipn_length, ?app_length, ?skipn_length; st_eq.
+      * rewrite H; reflexivity.
+      * rewrite H; reflexivity.
+Qed.
